@@ -33,7 +33,7 @@ func init() {
 		Run: c11Run,
 		Floors: func(m *Merged, tier string) []string {
 			var u []string
-			for _, c := range []string{"layout_negative_key", "layout_zero_key", "layout_maxkey_254", "layout_maxkey_255", "layout_maxkey_256", "layout_big_key", "layout_undefined_mode", "layout_regvarandop", "layout_prepopulated_then_regvarandop", "fetcher_slice", "fetcher_map", "registrations_checked", "weighted_sums", "ident_probes", "pair_probes", "bindings_with_unregistered_extras", "late_explicit_key_probes", "single_variable_programs", "rekeyed_name_probes"} {
+			for _, c := range []string{"layout_negative_key", "layout_zero_key", "layout_maxkey_254", "layout_maxkey_255", "layout_maxkey_256", "layout_big_key", "layout_undefined_mode", "layout_regvarandop", "layout_prepopulated_then_regvarandop", "fetcher_slice", "fetcher_map", "registrations_checked", "weighted_sums", "ident_probes", "pair_probes", "bindings_with_unregistered_extras", "late_explicit_key_probes", "single_variable_programs", "rekeyed_name_probes", "keyword_like_variable_names"} {
 				if m.C(c) == 0 {
 					u = append(u, c+" = 0")
 				}
@@ -194,7 +194,22 @@ func c11Run(w *W, idx int) {
 		if r.Intn(6) == 0 {
 			v = c11TimeValue(r)
 		}
-		intVars = append(intVars, vr{fmt.Sprintf("v%d", i), v})
+		name := fmt.Sprintf("v%d", i)
+		if r.Intn(4) == 0 {
+			// names that are not reserved: other letter cases of the literals, keywords and operator names, the
+			// engine's own marker spellings, dotted and underscored names
+			special := []string{"True", "FALSE", "tRuE", "False", "If", "IF", "AND", "Or", "Not", "DNE", "fi", "Fi", "Mod", "IN", "user.level", "a.b.c", "_x", "x_1", "true1", "iff"}
+			name = special[(i*7+r.Intn(len(special)))%len(special)]
+			for _, o := range intVars {
+				if o.name == name {
+					name = fmt.Sprintf("v%d", i)
+				}
+			}
+			if name[0] != 'v' {
+				w.Inc("keyword_like_variable_names")
+			}
+		}
+		intVars = append(intVars, vr{name, v})
 	}
 	for i := 0; i < r.Intn(5); i++ {
 		otherVars = append(otherVars, vr{fmt.Sprintf("o%d", i), c11OtherValue(r)})
